@@ -107,6 +107,27 @@ def _bits32(x):
     return [int(v) for v in np.asarray(x, dtype=np.float32).view(np.uint32)]
 
 
+def _warm_graph(job, w):
+    """graphs an estimator is fitted on BEFORE the fit that is judged (the history of a re-used estimator object)"""
+    g = job['graph']
+    if w == 'self':
+        return csr_of(g)
+    n = g['n'] + (1 if w == 'bigger' else 0)
+    rows = np.arange(n)
+    ring = sparse.csr_matrix((np.ones(n), (rows, (rows + 1) % n)), shape=(n, n))
+    return sparse.csr_matrix(ring + ring.T)
+
+
+def _refit(est, job):
+    """fit the estimator on the graphs of job['warm'] first: every fit must answer for its own input only"""
+    for w in job.get('warm') or []:
+        try:
+            est.fit(_warm_graph(job, w))
+        except Exception:
+            pass
+    return est
+
+
 def _do_job(job, mods):
     kind = job['kind']
     try:
@@ -114,6 +135,8 @@ def _do_job(job, mods):
             a = csr_of(job['graph'])
             mods['rec'].clear()
             pr = mods['PageRank'](damping_factor=job['damping'], solver=job['solver'], n_iter=job['n_iter'], tol=job['tol'])
+            _refit(pr, job)
+            mods['rec'].clear()
             s = pr.fit_predict(a, py_weights(job['weights']))
             con = dict(mods['rec'])
             op = con.pop('op', None)
@@ -160,13 +183,13 @@ def _do_job(job, mods):
                     'order': [int(x) for x in np.argsort(-res)]}
         if kind == 'katz':
             a = csr_of(job['graph'])
-            s = mods['Katz'](damping_factor=job['damping'], path_length=job['path_length']).fit_predict(a)
+            s = _refit(mods['Katz'](damping_factor=job['damping'], path_length=job['path_length']), job).fit_predict(a)
             return {'scores': [float(x) for x in s]}
         if kind == 'closeness':
-            s = mods['Closeness']().fit_predict(csr_of(job['graph']))
+            s = _refit(mods['Closeness'](), job).fit_predict(csr_of(job['graph']))
             return {'scores': [float(x) for x in s]}
         if kind == 'betweenness':
-            s = mods['Betweenness']().fit_predict(csr_of(job['graph']))
+            s = _refit(mods['Betweenness'](), job).fit_predict(csr_of(job['graph']))
             return {'scores': [float(x) for x in s]}
         if kind == 'hits':
             a = sparse.csr_matrix((np.array(job['graph']['data'], dtype=float), np.array(job['graph']['indices']),
@@ -471,6 +494,7 @@ def pagerank_plan(ctx):
                 job = {'kind': 'pagerank', 'graph': gdesc(a), 'damping': d, 'weights': w, 'solver': solver, 'n_iter': iters_for(d),
                        'tol': rng.choice([1e-6, 1e-6, 0.0, 1e-8])}
                 plan.append({'job': job, 'check': 'spec', 'sink': False, 'name': 'cycle'})
+    add_histories(ctx, rng, [p['job'] for p in plan])
     return plan
 
 
@@ -962,7 +986,20 @@ def other_plan(ctx):
         b = sparse.csr_matrix(dense)
         plan.append({'kind': 'hits', 'shape': [nr, nc], 'graph': {'n': nr, 'indptr': [int(x) for x in b.indptr],
                      'indices': [int(x) for x in b.indices], 'data': [float(x) for x in b.data]}})
+    add_histories(ctx, rng, plan)
     return plan
+
+
+WARMS = [['self'], ['ring'], ['ring', 'self'], ['bigger', 'ring'], ['self', 'self']]
+
+
+def add_histories(ctx, rng, jobs):
+    """A third of the estimator jobs are run on a RE-USED estimator object: it is fitted on other graphs first (the same
+    graph, a ring of the same size, a ring with one node more) and the fit that is judged comes last."""
+    for job in jobs:
+        if job['kind'] in ('katz', 'closeness', 'betweenness', 'pagerank') and not job.get('big') and rng.random() < 0.34:
+            job['warm'] = rng.choice(WARMS)
+            ctx.count('history:%s:%s' % (job['kind'], '+'.join(job['warm'])))
 
 
 def rel_close(model, impl, tol):
@@ -978,6 +1015,8 @@ def eval_other(ctx, plan):
         g = job['graph']
         sig = {'entry': {'katz': 'Katz', 'closeness': 'Closeness', 'betweenness': 'Betweenness', 'hits': 'HITS',
                          'values': 'get_adjacency_values', 'push': 'push_pagerank'}[kind]}
+        if job.get('warm'):
+            sig['history'] = 're-used estimator'
         if kind == 'betweenness':
             sig['directed'] = bool(job['directed'])
         impl_err = 'err ' + r['err'] if 'err' in r else None
